@@ -141,6 +141,20 @@ case("rot kept: the statement before the loop differs from the one at its end", 
 case("lockwith fires", {"m": "class A(object):\n    def f(self):\n        self._l.acquire()\n        try:\n            return self.g()\n        finally:\n            self._l.release()\n"}, "m", "f", has=["with self._l:"])
 case("lockwith kept: another lock is released", {"m": "class A(object):\n    def f(self):\n        self._l.acquire()\n        try:\n            return self.g()\n        finally:\n            self._m.release()\n"}, "m", "f", has=["acquire()"])
 case("unroll kept: the body can break", {"m": "def f(g):\n    for x in (1, 2):\n        if g(x):\n            break\n    return 0\n"}, "m", "f", has=["for x in (1, 2)"])
+case("suppress(BaseException) is a swallow-all handler", {"m": "from contextlib import suppress\ndef f(cb, x):\n    with suppress(BaseException):\n        cb(x)\n    return x\n"}, "m", "f", has=["try:", "except:"], lacks=["suppress"])
+case("suppress kept: a specific class (contextlib.suppress also swallows exception groups of that class, `except KeyError` does not)", {"m": "from contextlib import suppress\ndef f(cb, x):\n    with suppress(KeyError):\n        cb(x)\n    return x\n"}, "m", "f", has=["with suppress(KeyError)"])
+case("suppress kept: the name is rebound locally", {"m": "def f(cb, x, mk):\n    suppress = mk()\n    with suppress(BaseException):\n        cb(x)\n    return x\n"}, "m", "f", has=["with suppress(BaseException)"])
+case("EAFP attribute look-up is hasattr", {"m": "def f(n, k, g):\n    try:\n        tb = n.to_bytes\n    except AttributeError:\n        return g(n)\n    return tb(k)\n"}, "m", "f", has=["hasattr(n, 'to_bytes')"], lacks=["try:"])
+case("EAFP kept: the try body does more than the look-up (a call that may raise AttributeError itself)", {"m": "def f(n, k, g):\n    try:\n        tb = n.to_bytes(k)\n    except AttributeError:\n        return g(n)\n    return tb\n"}, "m", "f", has=["try:"])
+case("EAFP kept: the handler is for another class", {"m": "def f(n, k, g):\n    try:\n        tb = n.to_bytes\n    except TypeError:\n        return g(n)\n    return tb(k)\n"}, "m", "f", has=["try:"])
+case("EAFP on a constant table is .get", {"k": "T = {1: b'a', 2: b'b'}\n", "m": "from . import k\ndef f(w):\n    try:\n        c = k.T[w]\n    except KeyError:\n        c = None\n    return c\n"}, "m", "f", has=["k.T.get(w)"], lacks=["try:"])
+case("EAFP on a constant table with a raising handler is a membership test", {"k": "T = {1: b'a', 2: b'b'}\n", "m": "from . import k\ndef f(w):\n    try:\n        c = k.T[w]\n    except KeyError:\n        raise ValueError(w)\n    return c\n"}, "m", "f", has=["if w in k.T"], lacks=["try:"])
+case("EAFP kept: the table is not a module-level dict display (an object with __getitem__ may raise KeyError for other reasons, or have __missing__)", {"k": "T = make()\n", "m": "from . import k\ndef f(w):\n    try:\n        c = k.T[w]\n    except KeyError:\n        c = None\n    return c\n"}, "m", "f", has=["try:"])
+case("EAFP kept: the key is computed by a call (which may itself raise KeyError)", {"k": "T = {1: b'a'}\n", "m": "from . import k\ndef f(w, g):\n    try:\n        c = k.T[g(w)]\n    except KeyError:\n        c = None\n    return c\n"}, "m", "f", has=["try:"])
+case("continue guard in a loop body is a conditional rest", {"m": "def f(xs, g, h):\n    for x in xs:\n        g(x)\n        if x is None:\n            continue\n        h(x)\n"}, "m", "f", has=["if x is not None"], lacks=["continue"])
+case("continue guard kept: it sits in a nested block (the statements after that block are skipped too)", {"m": "def f(xs, g, h, l):\n    for x in xs:\n        with l:\n            if x is None:\n                continue\n            g(x)\n        h(x)\n"}, "m", "f", has=["continue"])
+case("copy-back with reads before the copy: the helper's local is the caller's variable", {"m": "class A(object):\n    def _h(self, x):\n        a = self.o(x)\n        self.p(a)\n        return a\n    def f(self, x, l):\n        with l:\n            a = self._h(x)\n        self.c(a)\n"}, "m", "f", has=["a = self.o(x)", "self.p(a)"], lacks=["_i1_"])
+case("copy-back kept: a handler of an enclosing try reads the caller's variable (it must still hold the old value when the helper fails half-way)", {"m": "class A(object):\n    def _h(self, x):\n        a = self.o(x)\n        self.p(a)\n        return a\n    def f(self, x):\n        a = None\n        try:\n            a = self._h(x)\n        except ValueError:\n            self.c(a)\n        return a\n"}, "m", "f", has=["self.p(_i"])
 # -- MODTABLE / class flattening / STAR -------------------------------------------------------------------------------------------
 case("modtable kept: the loop variable is read afterwards", {"m": "T = {}\nfor k in (1, 2):\n    T[k] = k + 1\nLAST = k\ndef f():\n    return T\n"}, "m", "f", has=["return T"])
 case("star expanded through the attribute's class", {"h": "class S(object):\n    def get(self, a, b):\n        return (a, b)\n", "m": "from .h import S\nclass A(object):\n    def __init__(self):\n        self._s = S()\n    def f(self, k):\n        return self._s.get(*k)\n"},
